@@ -1232,6 +1232,9 @@ func (vx *Vaxis) sendQueries() {
 	// Explicit width query
 	_, _ = vx.tw.WriteString("\x1b[H")
 	_, _ = fmt.Fprintf(vx.tw, explicitWidth, 1, " ")
+	// The cursor position query is written directly to the terminal: flush
+	// the probe first so that the reply is about the probe
+	_, _ = vx.tw.Flush()
 	_, col := vx.CursorPosition()
 	if col == 1 {
 		log.Debug("[capability] explicit width supported")
